@@ -6,7 +6,8 @@ scratch directory:
  L1  initial states of document file and archive x formats x declared/undeclared sizes x offline x base-url x words of
      download outcomes (all short words + the retry-budget boundary);
  L2  every crash point (each write, torn writes, rename, remove) of a first run, followed by a second run on the snapshot;
- L3  offset tables on a 100,001-line file: absent / valid / stale / torn, and crash points of the table build.
+ L3  offset tables on a 100,001-line file: absent / valid / stale / torn, and crash points of the table build;
+ L4  bundled document sets (prepare_bundled_document_set): initial states x formats x sizes.
 """
 import builtins
 import bz2
@@ -34,7 +35,8 @@ RULE = (
     "{none, bz2, gz, zst, zip} x sizes {declared, undeclared} x {online, offline} x base-url {present, absent} x download-outcome words "
     "over {ok, 404, 500, protocol error before/inside the body, read time-out, complete body of another length}: all words of length <= 2 "
     "(thorough 3) plus k protocol errors then ok for k in 9..11; L2: every I/O step of a first run (every write, 3 torn offsets per write, "
-    "rename, remove) as crash point, second run on the snapshot; L3: offset-table states and crash points on a 100,001-line file. "
+    "rename, remove) as crash point, second run on the snapshot; L3: offset-table states and crash points on a 100,001-line file; L4: bundled "
+    "document sets: document x archive x format x sizes. "
     "non-trivial = a fault, a crash or a non-empty initial state; distinct = the configuration"
 )
 ASSUMPTIONS = [
@@ -603,6 +605,67 @@ def l3_states():
     return out
 
 
+# ------------------------------------------------------------------------------------------------ L4 bundled document sets
+
+
+def l4_cases():
+    for fmt in (None, "bz2", "gz", "zst", "zip"):
+        for declared in (True, False):
+            for doc_state in ("absent", "correct", "truncated", "long"):
+                for arch_state in (("absent", "correct", "truncated", "corrupt") if fmt else ("absent",)):
+                    yield (fmt, declared, doc_state, arch_state)
+
+
+def l4_check(case, res):
+    """prepare_bundled_document_set: True -> complete verified data; False only if nothing usable is there; never a download"""
+    setup()
+    from esrally.track import loader
+    from esrally.utils import net
+
+    fmt, declared, doc_state, arch_state = case
+    archive = compress(fmt, DOC) if fmt else None
+    root = new_root()
+    v = None
+    try:
+        populate(root, fmt, doc_state, arch_state, archive)
+        ds = docset(fmt, declared, True, archive=archive)
+        ep = Endpoint((), archive if fmt else DOC)
+        net._request = ep
+        prep = loader.DocumentSetPreparator("verif", loader.Downloader(False, test_mode=False), loader.Decompressor())
+        try:
+            with FsHooks(StepCounter(root)):
+                r = prep.prepare_bundled_document_set(ds, root)
+            exc = None
+        except Exception as e:  # noqa
+            r, exc = None, e
+        if ep.requests:
+            v = ("bundled-set-downloads", f"{len(ep.requests)} download requests for a bundled document set")
+        elif exc is None and r is True:
+            g = good_state(root, ds)
+            if g and not (not declared and doc_state == "long" and g[0] == "document-wrong-content"):
+                v = (f"bundled-returned-true-but-{g[0]}", g[1])
+        elif exc is None and r is False:
+            usable = doc_state != "absent" or (fmt and arch_state != "absent")
+            if usable:
+                v = ("bundled-returned-false-although-files-present", f"doc={doc_state} archive={arch_state}")
+        elif exc is None:
+            v = ("bundled-no-verdict", f"returned {r!r}")
+        else:
+            healthy = doc_state == "correct" or (fmt and arch_state == "correct" and doc_state == "absent")
+            if healthy:
+                v = ("healthy-local-state-rejected", f"{type(exc).__name__}: {str(exc)[:200]}")
+    finally:
+        shutil.rmtree(root, ignore_errors=True)
+    res.case(
+        case_repr={"bundled": True, "format": fmt, "sizes_declared": declared, "document": doc_state, "archive": arch_state} if res.sample_now(53) else None,
+        nontrivial_key=("L4", case) if doc_state != "absent" or arch_state != "absent" else None,
+        outcome_key=("L4", repr(r), type(exc).__name__ if exc else None, v[0] if v else "ok"),
+    )
+    if v:
+        res.violation(f"prepare:{v[0]}:{fmt or 'plain'}" + ("" if declared else ":sizes-undeclared"),
+                      f"bundled set format={fmt} declared={declared} doc={doc_state} archive={arch_state}: {v[1]}", {"layer": 4, "case": list(case)})
+
+
 def _job(arg):
     layer, items = arg
     res = Result()
@@ -611,6 +674,8 @@ def _job(arg):
             l1_check(it, res)
         elif layer == 2:
             l2_check(it, res)
+        elif layer == 4:
+            l4_check(it, res)
         else:
             l3_check(it, res)
     return res
@@ -620,11 +685,13 @@ def run(tier, seed):
     l1 = list(l1_cases(tier))
     l2 = list(l2_cases(tier))
     l3 = l3_states()
-    jobs = [(1, ch) for ch in par.chunks(l1, par.NPROC * 4)] + [(2, [c]) for c in l2] + [(3, [s]) for s in l3]
+    l4 = list(l4_cases())
+    jobs = [(1, ch) for ch in par.chunks(l1, par.NPROC * 4)] + [(2, [c]) for c in l2] + [(3, [s]) for s in l3] + [(4, ch) for ch in par.chunks(l4, 8)]
     res = par.pmap(_job, jobs, seed=seed)
     res.extra["L1_cases"] = len(l1)
     res.extra["L2_histories"] = len(l2)
     res.extra["L3_states"] = len(l3)
+    res.extra["L4_bundled_cases"] = len(l4)
     res.states = res.evaluations
     res.transitions = res.evaluations
     return res
@@ -638,6 +705,8 @@ def replay(data):
     elif data["layer"] == 2:
         c = data["case"]
         l2_check((c[0], c[1], tuple(c[2])), res)
+    elif data["layer"] == 4:
+        l4_check(tuple(data["case"]), res)
     else:
         l3_check(data["state"], res)
     return [v for lst in res.violations.values() for v in lst]
